@@ -10,7 +10,7 @@ META = {
                   "per chunk of B names), open a private handle, seek + read in two steps, and Put the result into the slot of its request; "
                   "fail-fast vs skip-errors. TLC explores ALL schedules for |req| <= 3 (thorough: 4) names with missing names at every position "
                   "and duplicates, T <= 2 (3) workers, B <= 2 (3): the call always returns Expected(req, skip) = one slot per request in request "
-                  "order, slot i = SeqRead(req[i]); the shared-handle variant of the model violates it. TLC then generates configurations "
+                  "order, slot i = SeqRead(req[i]); the shared-handle and the stale-handle-reuse variants of the model violate it; a second call after the archive at the path was replaced (generation 2) is part of the model. TLC then generates configurations "
                   "(interface x threads x batch x request size around batch multiples and the 1000 / 5000 switches x skip x missing position x "
                   "duplicates); the driver runs the real interfaces (incl. the two parallel PatchChain constructors) repeatedly under CPU contention next to a sequential Archive::read_file "
                   "reference; TLC validates every returned slot against ParExtract!ExpectedFrom.",
@@ -36,6 +36,12 @@ def run(ctx, cases=None):
     if "Invariant SlotsRight is violated" not in text and "Invariant ScheduleIndependent is violated" not in text:
         raise core.ToolError("stage A: the shared-handle variant of ParExtract is not rejected by the model checker")
     ctx.notes.append("MC_ParExtract_shared (one handle for all workers): invariant violated, as it must be")
+    # the named deviation StaleHandleReuse (a worker keeps a handle across a replacement of the archive) is refuted
+    rc, text = ctx.tlc("MC_ParExtract", "MC_ParExtract_stale", workers=4, timeout=600, tag="mc-stale")
+    if "Invariant HandleFresh is violated" not in text and "Invariant SlotsRight is violated" not in text \
+            and "Invariant ScheduleIndependent is violated" not in text:
+        raise core.ToolError("stage A: the StaleHandleReuse deviation of ParExtract is not refuted by the model checker")
+    ctx.notes.append("MC_ParExtract_stale (StaleHandleReuse: per-thread handle kept across a replacement of the archive): refuted")
     if cases is None:
         cases, ncases = ctx.gen("Gen_ParExtract")
     else:
